@@ -383,7 +383,7 @@ def attribute(spec, r, src):
         if spec[1].startswith("str_user_print/") and c == "signal":
             return "KF-C16-nativerec"
         if spec[1].endswith("/caught_in_callback") and "increased roots" in p:
-            return "KF-C16-roots"
+            return "KF-C16-roots"  # fixed: reported as a violation if it returns (fixed entries suppress nothing)
     return None
 
 
